@@ -23,12 +23,14 @@ int mvsim_lib_all_queues_at_base0(void) {
   return 1;
 }
 
-/* flavour "mem": is sp on one of the workers' scheduler stacks (malloc'ed by myth_worker_start)? */
-int mvsim_lib_sched_stack_range(unsigned long sp, unsigned long *lo, unsigned long *hi) {
+/* flavour "mem": the workers' scheduler stacks (malloc'ed by myth_worker_start).  Called ONLY from the start-up /
+   shut-down barrier hook, when g_envs is certainly valid (myth_fini frees it without clearing the pointer). */
+int mvsim_lib_sched_stacks(unsigned long *lo, unsigned long *hi, int max) {
+  int n = 0;
   if (!g_envs) return 0;
-  for (int i = 0; i < g_attr.n_workers; i++) {
+  for (int i = 0; i < g_attr.n_workers && n < max; i++) {
     unsigned long b = (unsigned long)g_envs[i].sched.stack;
-    if (b && sp >= b && sp < b + MYTH_SCHED_STACK_SIZE) { *lo = b; *hi = b + MYTH_SCHED_STACK_SIZE; return 1; }
+    if (b) { lo[n] = b; hi[n] = b + MYTH_SCHED_STACK_SIZE; n++; }
   }
-  return 0;
+  return n;
 }
